@@ -134,8 +134,11 @@ class Env:
                     return r.status, r.headers.get('Content-Type'), await r.read()
             status, ctype, body = loop().run_until_complete(go())
         else:
-            r = self.client.post(path, data=data, content_type=header) if header is not None else self.client.post(path, data=data)
-            status, ctype, body = r.status_code, r.headers.get('Content-Type'), r.get_data()
+            try:
+                r = self.client.post(path, data=data, content_type=header) if header is not None else self.client.post(path, data=data)
+                status, ctype, body = r.status_code, r.headers.get('Content-Type'), r.get_data()
+            except Exception:       # an exception escaped the WSGI application instead of becoming a response
+                status, ctype, body = 599, None, b''
         return status, ctype, body, list(self.calls)
 
     def close(self):
